@@ -29,20 +29,23 @@ APP_FIELDS = [
     ('disk', '1G', ['0M']),
     ('image', 'docker://img:tag', ['native:foo']),
     ('command', '/bin/sleep 5', ['', 'sh -c "echo \'x\'"', 'caf\xe9']),
-    ('args', ['-c', 'x y'], [[], ['a'], ['b', 'a']]),
-    ('tickets', ['u@R'], [[], ['a@R', 'b@R']]),
-    ('keytabs', ['host/x@R'], [[]]),
-    ('features', ['docker'], [[]]),
+    # incl. present-but-empty members: '' is a value, only None is dropped
+    ('args', ['-c', 'x y'], [[], ['a'], ['b', 'a'],
+                             ['--prefix', '', '--verbose'],
+                             ['--prefix', '--verbose'], ['']]),
+    ('tickets', ['u@R'], [[], ['a@R', 'b@R'], ['a@R', '', 'b@R']]),
+    ('keytabs', ['host/x@R'], [[], ['', 'host/x@R']]),
+    ('features', ['docker'], [[], ['docker', '']]),
     ('identity_group', 'proid.ig', []),
     ('shared_ip', True, [False]),
     ('shared_network', True, [False]),
-    ('passthrough', ['h1.x.com', 'h2.x.com'], [[]]),
+    ('passthrough', ['h1.x.com', 'h2.x.com'], [[], ['h1.x.com', '']]),
     ('schedule_once', True, [False]),
     ('ephemeral_ports', {'tcp': 5, 'udp': 10},
      [{}, {'tcp': 5}, {'udp': 1}, {'tcp': 0, 'udp': 0}, {'tcp': 0}]),
     ('data_retention_timeout', '30m', []),
     ('lease', '3d', []),
-    ('traits', ['t1', 't2'], [[], ['t2', 't1']]),
+    ('traits', ['t1', 't2'], [[], ['t2', 't1'], ['t1', '', 't2']]),
 ]
 S1 = {'name': 'web', 'command': '/bin/web'}
 S2 = {'name': 'db', 'command': '/bin/db',
@@ -91,7 +94,7 @@ CA_FIELDS = [
     ('max_utilization', 4.2, [1.0, 0.5, 100.0]),
     ('rank', 100, [0, 1]),
     ('rank_adjustment', 10, [0]),
-    ('traits', ['a', 'b'], [[], ['b', 'a']]),
+    ('traits', ['a', 'b'], [[], ['b', 'a'], ['a', '', 'b'], ['']]),
     ('partition', 'p1', ['_default']),
 ]
 A1 = {'pattern': 'proid.a*', 'priority': 1}
@@ -180,6 +183,18 @@ FETCH_MODELS = ['typed', 'raw']
 
 def _subset_menus(fields):
     return [(f, [ABSENT, v]) for f, v, _alts in fields]
+
+
+# nested list attributes with a present-but-empty member (and the same
+# objects without it, so that a dropped member is also a collision)
+APP_EXTRA_VALUES = [
+    {'vring': {'cells': ['c1', ''], 'rules': []}},
+    {'vring': {'cells': ['c1'], 'rules': []}},
+    {'vring': {'cells': [], 'rules': [{'pattern': 'p.a*',
+                                       'endpoints': ['http', '', 'tcp']}]}},
+    {'vring': {'cells': [], 'rules': [{'pattern': 'p.a*',
+                                       'endpoints': ['http', 'tcp']}]}},
+]
 
 
 def _value_cases(fields):
@@ -373,7 +388,9 @@ class Ldap:
         parts = []
         for kind in ('cellalloc', 'partition', 'app'):
             _cls, fields, lists = KINDS[kind]
-            parts.append(cc.Explicit(kind + '.values', _value_cases(fields)))
+            parts.append(cc.Explicit(
+                kind + '.values', _value_cases(fields) +
+                (copy.deepcopy(APP_EXTRA_VALUES) if kind == 'app' else [])))
             if kind == 'app' and tier == 'quick':
                 # quick: the 17-member lists are crossed with each other and
                 # one short list per field, not with the whole product
@@ -406,6 +423,8 @@ class Ldap:
                 for f, v, a in fields}
             out[kind + '.keyed lists'] = {
                 f: [cc._short(x, 90) for x in m] for f, m in lists}
+        out['app.values extra (nested lists with an empty-string member)'] \
+            = [cc._short(x, 120) for x in APP_EXTRA_VALUES]
         out['app.subsets'] = (
             'every subset of the 19 fields (2**19)' if tier != 'quick' else
             'every subset of size <=3 or >=16 of the 19 fields')
